@@ -4,7 +4,7 @@ usage: tools/keep_mutant.py <name> <worktree> <tier> <check> [<check> ...]
 Steps (all in the scratch worktree, never in /repo except through try_mutant.sh which undoes itself):
   1. with the change: build, the repository's 19 tests pass, demo.sh exits non-zero
   2. change stashed: rebuild, demo.sh exits 0; change restored
-  3. apply the patch to /repo, run the named checks, undo
+  3. run the named checks against a scratch worktree of /repo with the patch applied (tools/try_mutant.sh; /repo itself is not touched)
 """
 import json
 import os
